@@ -69,7 +69,11 @@ def check_case(ctx, case):
     L = None
     if case.get("region"):
         L = lattice.Lattice(case["region"])
-        region = L.build("from_origins")
+        ob = call(L.build, "from_origins")
+        if not ob.ok:
+            ctx.unexpected(ob, "build_region")
+            return
+        region = ob.value
 
     def fresh(evs=None):
         return CSEPCatalog(data=list(events if evs is None else evs), catalog_id=cid, name=case["name"], region=region)
@@ -185,7 +189,10 @@ ID_ALPHA = st.characters(min_codepoint=32, max_codepoint=126)
 @st.composite
 def ids(draw):
     s = draw(st.one_of(st.text(ID_ALPHA, min_size=1, max_size=12), st.text(ID_ALPHA, min_size=1, max_size=64),
-                       st.sampled_from(['a,b', 'x"y', '"quoted"', 'semi;colon', 'with space', "ci38457511", "0", "1e5", "-1", "'", ",", '""', " ev 7", "ev 7 ", "  x", "\tno"[1:]])))
+                       st.sampled_from(['a,b', 'x"y', '"quoted"', 'semi;colon', 'with space', "ci38457511", "0", "1e5", "-1", "'", ",", '""', " ev 7", "ev 7 ", "  x", "\tno"[1:],
+                                        # ids that look like numbers / keywords: they are strings and come back unchanged
+                                        "007", "00", "0.50", "+1", "1_000", "0x1F", "1.", ".5", "NaN", "inf", "None", "True", "null", "1E3", "12345678901234567890"]),
+                       st.integers(0, 10**6).map(lambda v: "%08d" % v)))
     if not s.strip():
         s = draw(st.sampled_from(["id", " id", "id ", "  two  blanks "]))
     return s
